@@ -7,6 +7,9 @@ HERE = os.path.dirname(os.path.abspath(__file__))
 
 # property -> (technique, level text, level note)
 BUILT = {
+    'C01': ('bounded-exhaustive enumeration of control-file layouts, operand alphabets and option deviations through the real tool pair sna2skool -> skool2bin',
+            'A: an image of every opcode slot x every combination of operand bytes from {00,01,22,41,5C,7F,80,FF} disassembled under each base letter (36 two-letter pairs on the two-operand forms) x -H x -l x Opcodes settings and reassembled; B: every control-file layout of <= 2 blocks over the 8 block types x split points, with <= 1 sub-block from a ~40-entry menu of B/C/S/T/W sublength patterns (multipliers, a:b parts, base prefixes on every part and on the main length), M and L directives, on code/text/constant/RST fills, with sna2skool option deviations (DefbSize, DefmSize, DefwSize, Wrap, LineWidth, InstructionWidth, -H, -l, Opcodes, -r) d <= 1; C: every slot cut by the 64K edge at k = 1..4 with Wrap 0/1. Oracle: every original byte outside ignored blocks comes back at its original address; no assembly failure.',
+            "Well-formedness rules of the generator (DESIGN.md C01): sub-blocks on statement boundaries (2-byte-instruction fill, even W lengths, S on constant runs, sublength lists dividing the sub-block length), '@ org' after an ignored block, base 'm' only on non-zero operands. Layouts that make sna2skool print a warning are counted as ill-formed, not judged. Values outside the 8-value operand alphabet are covered by C02."),
     'C02': ('exhaustive enumeration of operand values per opcode slot (all 256 byte values, all 65536 (d,n) pairs and words, all reachable jump targets) x base/case/format settings on the real assembler and disassembler',
             'Direction 1: for every opcode slot and additional-opcode setting, every value of every byte operand, displacement and jump offset (complete), all 65536 (d,n) pairs of LD (IX/IY+d),n, all 65536 words for a representative of each word-operand decoder (thorough: all of them), relative jumps at every address within reach of either end of memory, the 64K edge with wrap on/off, in every base indicator (two-letter pairs for two-operand forms), either case, decimal or hex: the emitted statement assembles to exactly the bytes it was decoded from (variant-flagged statements: assemble and re-disassemble to the same text, the byte list being what reproduces them); DEFB/DEFM/DEFW/DEFS ranges for all byte values and boundary words. Direction 2: every mnemonic form x 40 operand spellings x 3 case variants: assemble -> disassemble -> assemble is the identity.',
             "Base 'm' only where a signed operand is meaningful (non-zero immediates/displacements/addresses; not RST, IN A,(n), OUT (n),A, DEFS sizes). Word operands of non-representative slots use a 24-value boundary alphabet in the quick tier. Trusted: mc/refs/z80ref.py only to classify operand kinds and to supply mnemonic templates for direction 2."),
